@@ -39,6 +39,11 @@ func draw(t *rapid.T) *pbt.Case {
 	for i := range m.X {
 		m.X[i] = g.Draw(t, rapid.IntRange(1, maxB).Draw(t, "branchbudget"))
 	}
+	if len(m.X) >= 1 && m.K != "goerrorfmulti" && rapid.IntRange(0, 2).Draw(t, "twin") == 0 {
+		// Two branches of the same shape: several branches then match
+		// the same As target / the same reference (first match wins).
+		m.X = append(m.X, m.X[0].Clone())
+	}
 	s := m
 	for i, n := 0, rapid.IntRange(0, 3).Draw(t, "wrappers"); i < n; i++ {
 		w := g.WrapOf(t, rapid.SampledFrom(g.Wraps).Draw(t, "w"), s)
